@@ -6,6 +6,7 @@
   Helper lemmas: LpProofs/C04/Basic.lean.
 -/
 import LpProofs.C04.Basic
+import LpProofs.C04.Assign
 import Mathlib.LinearAlgebra.Matrix.Trace
 import Mathlib.LinearAlgebra.CrossProduct
 import Mathlib.Logic.Equiv.Fin.Basic
@@ -447,6 +448,36 @@ theorem blockCtor_two_by_two (A11 A12 A21 A22 : Mat)
     rw [get_ofFn _ (by simp [hR]) (by simp [hC])]
     simp [locate, hb, hd]
 
+/-- **block constructor, general grid**: for a rectangular grid that passes the validity test,
+    the entry at (row offset of block row `bi` + `ii`, column offset of block column `bj` + `jj`)
+    is entry `(ii, jj)` of block `(bi, bj)` -/
+theorem blockCtor_entry {g : List (List Mat)} {C : Mat} (h : blockCtor g = .ok C)
+    {bi bj ii jj : ℕ} (hbi : bi < g.length) (hbj : bj < (g.headD []).length)
+    (hii : ii < ((g.getD bi []).headD ⟨0, 0, []⟩).rows) (hjj : jj < ((g.headD []).getD bj ⟨0, 0, []⟩).cols) :
+    C.get (offset (g.map fun r => (r.headD ⟨0, 0, []⟩).rows) bi + ii)
+          (offset ((g.headD []).map fun B => B.cols) bj + jj)
+      = ((g.getD bi []).getD bj ⟨0, 0, []⟩).get ii jj := by
+  unfold blockCtor at h
+  simp only at h
+  split at h
+  · cases h
+  · split at h
+    · cases h
+    · cases h
+      have hr := locate_offset (g.map fun r => (r.headD ⟨0, 0, []⟩).rows) bi ii (by simpa using hbi)
+        (by simpa [List.getD_eq_getElem?_getD, List.getElem?_map, hbi] using hii)
+      have hc := locate_offset ((g.headD []).map fun B => B.cols) bj jj (by simpa using hbj)
+        (by
+          have e : (List.map (fun B : Mat => B.cols) (g.headD [])).getD bj 0
+              = ((g.headD []).getD bj ⟨0, 0, []⟩).cols := by
+            simp only [List.getD_eq_getElem?_getD, List.getElem?_map]
+            cases hq : (g.headD [])[bj]? with
+            | none => rw [List.getElem?_eq_none_iff] at hq; omega
+            | some x => rfl
+          rw [e]; exact hjj)
+      rw [get_ofFn _ hr.2 hc.2]
+      simp only [hr.1, hc.1]
+
 /-- a grid whose block shapes do not tile is rejected -/
 theorem blockCtor_invalid_two_by_two (A11 A12 A21 A22 : Mat)
     (h : ¬ (A12.rows = A11.rows ∧ A22.rows = A21.rows ∧ A21.cols = A11.cols ∧ A22.cols = A12.cols)) :
@@ -585,5 +616,99 @@ theorem sdiv_eq_smul (A : Mat) (s : ℚ) : sdiv A s = smul (1 / s) A := by
   apply List.map_congr_left; intro j _
   ring
 
+
+
+/-! ## Compound assignment = binary operator; vectors -/
+
+theorem vaddAssign_eq_vadd (u v : Vec) : vaddAssign u v = vadd u v := by
+  simp [vaddAssign, vadd, vUpdLoop_eq]
+
+theorem vsubAssign_eq_vsub (u v : Vec) : vsubAssign u v = vsub u v := by
+  simp [vsubAssign, vsub, vUpdLoop_eq]
+
+theorem vadd_defined_iff (u v : Vec) : (∃ w, vadd u v = .ok w) ↔ u.length = v.length := by
+  unfold vadd; split <;> simp_all
+
+theorem vadd_refines {u v w : Vec} (h : vadd u v = .ok w) :
+    w.length = u.length ∧ toV w u.length = toV u u.length + toV v u.length := by
+  unfold vadd at h; split at h
+  · cases h
+  · cases h
+    refine ⟨vtab_length _ _, ?_⟩
+    ext i
+    rw [toV_apply, vtab_getD _ i.isLt]; simp
+
+theorem vsub_refines {u v w : Vec} (h : vsub u v = .ok w) :
+    w.length = u.length ∧ toV w u.length = toV u u.length - toV v u.length := by
+  unfold vsub at h; split at h
+  · cases h
+  · cases h
+    refine ⟨vtab_length _ _, ?_⟩
+    ext i
+    rw [toV_apply, vtab_getD _ i.isLt]; simp
+
+theorem vsmul_refines (u : Vec) (s : ℚ) :
+    (vsmul u s).length = u.length ∧ toV (vsmul u s) u.length = s • toV u u.length := by
+  refine ⟨vtab_length _ _, ?_⟩
+  ext i
+  rw [toV_apply, vsmul, vtab_getD _ i.isLt]; simp [mul_comm]
+
+theorem vsdiv_refines (u : Vec) (s : ℚ) :
+    (vsdiv u s).length = u.length ∧ toV (vsdiv u s) u.length = s⁻¹ • toV u u.length := by
+  refine ⟨vtab_length _ _, ?_⟩
+  ext i
+  rw [toV_apply, vsdiv, vtab_getD _ i.isLt]; simp [div_eq_inv_mul]
+
+/-- `A += B` leaves exactly what `A + B` returns (every shape `m,n ≥ 1`) -/
+theorem plusAssign_eq_plus {A : Mat} (B : Mat) (hA : A.WellShaped) (h0 : A.rows ≠ 0) :
+    plusAssign A B = plus A B := by
+  unfold plusAssign plus
+  split
+  · rfl
+  · congr 1
+    obtain ⟨hw, hg⟩ := mUpdLoop_spec (· + ·) A B hA
+    refine ext_of_get hw (wellShaped_ofFnE _ _ _) rfl (by simp [mUpdLoop, ofFnE, h0]) (fun i j hi hj => ?_)
+    have hi' : i < A.rows := hi
+    have hj' : j < A.cols := hj
+    rw [hg i j hi' hj', get_ofFnE _ hi' hj']
+
+theorem minusAssign_eq_minus {A : Mat} (B : Mat) (hA : A.WellShaped) (h0 : A.rows ≠ 0) :
+    minusAssign A B = minus A B := by
+  unfold minusAssign minus
+  split
+  · rfl
+  · congr 1
+    obtain ⟨hw, hg⟩ := mUpdLoop_spec (· - ·) A B hA
+    refine ext_of_get hw (wellShaped_ofFnE _ _ _) rfl (by simp [mUpdLoop, ofFnE, h0]) (fun i j hi hj => ?_)
+    have hi' : i < A.rows := hi
+    have hj' : j < A.cols := hj
+    rw [hg i j hi' hj', get_ofFnE _ hi' hj']
+
+theorem wellShaped_plusAssign {A B C : Mat} (hA : A.WellShaped) (h : plusAssign A B = .ok C) : C.WellShaped := by
+  unfold plusAssign at h; split at h
+  · cases h
+  · cases h; exact (mUpdLoop_spec _ A B hA).1
+
+theorem wellShaped_minusAssign {A B C : Mat} (hA : A.WellShaped) (h : minusAssign A B = .ok C) : C.WellShaped := by
+  unfold minusAssign at h; split at h
+  · cases h
+  · cases h; exact (mUpdLoop_spec _ A B hA).1
+
+/-! ## Non-vacuity: concrete instances of the hypotheses -/
+
+example : plus ⟨2, 3, [[1, 2, 3], [4, 5, 6]]⟩ ⟨2, 3, [[1, 1, 1], [1, 1, 1]]⟩
+    = .ok ⟨2, 3, [[2, 3, 4], [5, 6, 7]]⟩ := by decide +kernel
+example : plus ⟨2, 3, [[1, 2, 3], [4, 5, 6]]⟩ ⟨3, 2, [[1, 1], [1, 1], [1, 1]]⟩ = .error .diag := by decide +kernel
+example : mul ⟨2, 3, [[1, 2, 3], [4, 5, 6]]⟩ ⟨3, 1, [[1], [0], [-1]]⟩ = .ok ⟨2, 1, [[-2], [-2]]⟩ := by decide +kernel
+example : (⟨2, 3, [[1, 2, 3], [4, 5, 6]]⟩ : Mat).WellShaped := by
+  refine ⟨rfl, ?_⟩; intro r hr; simp at hr; rcases hr with rfl | rfl <;> rfl
+example : plusAssign ⟨2, 2, [[1, 2], [3, 4]]⟩ ⟨2, 2, [[1, 1], [1, 1]]⟩ = .ok ⟨2, 2, [[2, 3], [4, 5]]⟩ := by decide +kernel
+example : subMatrix ⟨2, 2, [[1, 2], [3, 4]]⟩ 0 1 = .ok ⟨1, 1, [[3]]⟩ := by decide +kernel
+example : subMatrix ⟨2, 2, [[1, 2], [3, 4]]⟩ (-1) 1 = .error .diag := by decide +kernel
+example : blockCtor [[⟨1, 1, [[5]]⟩, ⟨1, 2, [[6, 7]]⟩], [⟨2, 1, [[8], [9]]⟩, ⟨2, 2, [[1, 2], [3, 4]]⟩]]
+    = .ok ⟨3, 3, [[5, 6, 7], [8, 1, 2], [9, 3, 4]]⟩ := by decide +kernel
+example : offset [1, 2] 1 + 1 = 2 ∧ locate [1, 2] 2 = (1, 1) := by decide
+example : cross [1, 0, 0] [0, 1, 0] = .ok [0, 0, 1] := by decide +kernel
+example : symmetric ⟨2, 2, [[1, 2], [2, 1]]⟩ = true ∧ antisymmetric ⟨2, 2, [[0, 2], [-2, 0]]⟩ = true := by decide +kernel
 
 end Lp.C04
